@@ -77,7 +77,8 @@ def gen_rule(rng):
                 if signed and rng.randrange(3) == 0:
                     v = -v
                 vals.append(v)
-        parts[name] = shape(rng, list(dict.fromkeys(vals)))
+        # (a value may be listed twice: the list is the caller's, it comes back as given)
+        parts[name] = shape(rng, vals if rng.randrange(4) == 0 else list(dict.fromkeys(vals)))
     if rng.randrange(3) == 0:
         parts["WKST"] = shape(rng, [rng.choice(WD)])
     rfc7529 = False
@@ -89,6 +90,10 @@ def gen_rule(rng):
             parts["SKIP"] = shape(rng, [rng.choice(("OMIT", "BACKWARD", "FORWARD"))])
         if rng.randrange(2):
             parts["BYMONTH"] = shape(rng, [rng.choice(("5L", "1", "12L", 3))])
+        elif rng.randrange(2):
+            # the same month in ordinary and in leap form are two values
+            m = rng.randrange(1, 13)
+            parts["BYMONTH"] = ("list", tuple(rng.sample([m, f"{m}L", rng.randrange(1, 13)], 3)))
     elif rng.randrange(12) == 0:
         # "any combination of rule parts": SKIP supplied without RSCALE is still a part the caller supplied
         parts["SKIP"] = shape(rng, [rng.choice(("OMIT", "BACKWARD", "FORWARD"))])
